@@ -8,7 +8,10 @@ tie:   Gen_SshConfig.v regenerated from scrapli/ssh_config.py on every run (HOST
        SSHKnownHosts; (P) the real _parse() output against the generator's structure, (M) the Coq
        model (build / lookup, run by vm_compute on the real _parse() output) against the real merged
        dict and the real lookup results, (S) the Python oracle against Coq's spec_lookup, and the
-       oracle (spec) against the real lookup results.
+       oracle (spec) against the real lookup results.  The same four comparisons run on the keyword-text
+       family (render_kw): the words host / match / hostname / port / user / identityfile inside comments, values,
+       longer keywords, comment / blank lines between an entry's directives, Match blocks (oracle-only for the
+       text level: the model starts at the _parse() output).
        + correspondence `sshconfig-cache-history` (harness/c16_cache.py): histories of lookups and driver
        constructions on the per-path cache of parsed files (ssh_config_factory), oracle per operation,
        model srun (cache as state) on the same histories.
@@ -18,6 +21,7 @@ import hashlib
 import hmac as pyhmac
 import json
 import os
+import random
 import re
 import tempfile
 
@@ -501,6 +505,233 @@ def gen_extra_text(rng):
     return "\n".join(lines)
 
 
+# ---- keyword-text family: the words host / match / hostname / port / user / identityfile where they are NOT a
+# ---- directive (comments, values, longer keywords), decoration between an entry's directives, Match blocks ----
+KW = ["host", "match", "match", "hostname", "port", "user", "identityfile"]
+KW_CAMEL = {"host": "Host", "match": "Match", "hostname": "HostName", "port": "Port", "user": "User",
+            "identityfile": "IdentityFile"}
+KW_USERS = ["match", "Match", "MATCH", "matchbox", "host", "hostname", "port", "user", "identityfile", "host_match", "port22",
+            "user_host", "rematch"]
+KW_HOSTNAMES = ["match", "match.example.com", "host", "hostname", "port.user.lab", "host-match.lab", "identityfile.lab",
+                "re-match.net", "user", "10.0.0.1-match"]
+KW_FILES = ["~/.ssh/match", "~/.ssh/match_key", "/keys/match/host", "/etc/ssh/host", "~/.ssh/identityfile", "user/port",
+            "~/.ssh/id_match", "/keys/user@host", "~/match/port/user", "match"]
+KW_HOSTS = ["match", "match1", "Match", "MATCH", "rematch", "port", "user", "identityfile", "hostname", "match.lab"]
+KW_UNKNOWN_REAL = ["HostKeyAlgorithms ssh-rsa", "HostKeyAlias match", "HostbasedAuthentication no", "UserKnownHostsFile /dev/null",
+                   "UserKnownHostsFile ~/.ssh/match hosts", "HostKeyAlias=host", "CanonicalizeHostname yes",
+                   "ProxyCommand ssh -W %h:%p match gw", "LocalCommand echo host = %h port %p user %r", "SetEnv MODE=match all",
+                   "RemoteCommand show user port 22", "ProxyJump user@match", "ForwardAgent yes", "Compression yes",
+                   "SendEnv MATCH USER HOST", "Tag match port", "PreferredAuthentications publickey"]
+MATCH_CRITERIA = ["all", "host foo", "host *.lab,gw*", "user bob", "originalhost sw1", "final all", "localuser root host x",
+                  "host=foo", "Host foo user bar", "canonical host *.corp", "host match"]
+MATCH_VALUES = {"hostname": "match.invalid", "port": "7777", "user": "matchuser", "identitiesonly": "yes",
+                "identityfile": "/keys/match_only"}
+SIG_MATCH_LEAK = "c16-match-block-directives-leak"
+
+
+def kw_spell(rng, w):
+    r = rng.random()
+    if r < 0.35:
+        return w
+    if r < 0.65:
+        return KW_CAMEL[w]
+    if r < 0.8:
+        return w.upper()
+    return "".join(c.upper() if rng.random() < 0.5 else c for c in w)
+
+
+def kw_phrase(rng):
+    """free text in which a keyword is followed by blank / tab / '=' (the callers make sure it does not start a line)"""
+    pre = rng.choice(["", "", "no ", "see ", "old: ", "the ", "was ", "TODO ", "keep in sync so that they ", "1 "])
+    sep = rng.choice([" ", " ", " ", "\t", "=", " = ", "  ", "\t\t"])
+    tail = rng.choice(["all", "x", "22", "legacy kex", "bob", "~/.ssh/old", "foo bar", "*", "10.0.0.1", "sw* gw?", "yes", "the bastion setup"])
+    return pre + kw_spell(rng, rng.choice(KW)) + sep + tail
+
+
+def kw_comment(rng):
+    text = kw_phrase(rng)
+    if rng.random() < 0.25:
+        text += rng.choice([" ", ", ", "; ", " # "]) + kw_phrase(rng)
+    return rng.choice(["", "", " ", "  ", "\t", "    "]) + "#" + rng.choice(["", " ", " ", "  ", "\t", "#", "# "]) + text
+
+
+def kw_unknown(rng):
+    """a directive scrapli does not read: a real one, or a parsed keyword as the prefix of a longer keyword"""
+    ind = rng.choice(["", " ", "  ", "    ", "\t"])
+    if rng.random() < 0.5:
+        return ind + rng.choice(KW_UNKNOWN_REAL)
+    w = rng.choice(KW)
+    kw = kw_spell(rng, w) + rng.choice(["s", "Alias", "KeyAlgorithms", "2", "_x", "-old", "File", "Name", "Exec", "x", "."])
+    if kw.lower() in ("hostname", "identityfile"):
+        kw += "s"
+    return ind + kw + rng.choice([" ", " ", "\t", "=", " = "]) + rng.choice(["x", "22", "yes", "match all", "bob", "~/.ssh/k", "host x"])
+
+
+def kw_decoration(rng):
+    """0..3 lines that belong to no directive"""
+    r = rng.random()
+    if r < 0.30:
+        return [kw_comment(rng)]
+    if r < 0.42:
+        return [rng.choice(["", "", " ", "\t"])] if rng.random() < 0.5 else [""] + [kw_comment(rng)]
+    if r < 0.50:
+        return [kw_comment(rng), "", kw_comment(rng)]
+    if r < 0.56:
+        return ["", "", kw_comment(rng)]
+    if r < 0.72:
+        return [kw_unknown(rng)]
+    return []
+
+
+def gen_kw_config(rng):
+    """entries with most options set, values / host names that look like keywords"""
+    base = gen_config(rng)
+    seen = {" ".join(p) for p, _ in base}
+    if rng.random() < 0.3:
+        pats = [rng.choice(KW_HOSTS)] + ([gen_name(rng, meta_ok=False)] if rng.random() < 0.5 else [])
+        if rng.random() < 0.3:
+            pats.reverse()
+        if " ".join(pats) not in seen:
+            base.insert(rng.randint(0, len(base)), (pats, None))
+    out = []
+    for pats, _ in base:
+        o = list(gen_opts(rng, dense=True))
+        if o[0] is not None and rng.random() < 0.4:
+            o[0] = rng.choice(KW_HOSTNAMES)
+        if o[2] and rng.random() < 0.5:
+            o[2] = rng.choice(KW_USERS)
+        if o[4] is not None and rng.random() < 0.5:
+            o[4] = rng.choice(KW_FILES)
+        out.append((pats, tuple(o)))
+    return out
+
+
+def _match_block(rng, own, leak):
+    """lines of a Match block; own = the option keys the preceding Host entry sets itself (None: no preceding entry).
+    -> (lines, keys of parsed directives in the block)"""
+    ind0 = rng.choice(["", "", "", " ", "\t"])
+    lines = [ind0 + kw_spell(rng, "match") + rng.choice([" ", " ", "  ", "\t"]) + rng.choice(MATCH_CRITERIA)]
+    if own is None or leak:
+        allowed = list(MATCH_VALUES)
+    else:
+        allowed = [k for k in MATCH_VALUES if k in own]
+    keys = []
+    ind = rng.choice(["", " ", "  ", "    ", "\t"])
+    for _ in range(rng.choice([0, 1, 1, 2, 3])):
+        r = rng.random()
+        if r < 0.55 and allowed:
+            k = rng.choice(allowed)
+            if k not in keys:
+                keys.append(k)
+                lines.append(ind + _kv(rng, k, MATCH_VALUES[k]))
+        elif r < 0.75:
+            lines.append(ind + rng.choice(KW_UNKNOWN_REAL))
+        elif r < 0.9:
+            lines.append(kw_comment(rng))
+        else:
+            lines.append("")
+    if leak and own is not None and not [k for k in keys if k not in own]:
+        missing = [k for k in MATCH_VALUES if k not in own]
+        if missing:
+            k = rng.choice(missing)
+            keys.append(k)
+            lines.append(ind + _kv(rng, k, MATCH_VALUES[k]))
+    return lines, keys
+
+
+OPT_INDEX = {"hostname": 0, "port": 1, "user": 2, "identitiesonly": 3, "identityfile": 4}
+
+
+def render_kw(rng, entries, leak=False):
+    """-> (text, alt_entries | None, feature set).  alt_entries (leak only): the structure in which the parsed
+    directives of a Match block are read as directives of the preceding Host entry (known-finding region)."""
+    out, feats = [], set()
+    alt = []
+    if rng.random() < 0.3:
+        out.append(kw_comment(rng).lstrip())
+        feats.add("comment-top")
+    if rng.random() < 0.12:
+        lines, _ = _match_block(rng, None, False)
+        out += lines
+        feats.add("match-top")
+    n_match = 0
+    for ei, (pats, (hostname, port, user, idonly, idfile)) in enumerate(entries):
+        line = _kv(rng, "host", rng.choice([" ", "  ", "\t"]).join(pats) if len(pats) > 1 else pats[0])
+        if rng.random() < 0.25:
+            line += rng.choice([" #", "  # ", " #\t", "\t# "]) + kw_phrase(rng)
+            feats.add("comment-hostline")
+        out.append(rng.choice(["", "", "", " ", "\t"]) + line)
+        opts = []
+        if hostname is not None:
+            opts.append(("hostname", hostname))
+        if port is not None:
+            opts.append(("port", str(port)))
+        if user:
+            opts.append(("user", user))
+        if idonly is not None:
+            opts.append(("identitiesonly", idonly))
+        if idfile is not None:
+            opts.append(("identityfile", idfile))
+        rng.shuffle(opts)
+        ind = rng.choice(["", " ", "  ", "    ", "\t", "\t\t"])
+        for gi in range(len(opts) + 1):
+            deco = kw_decoration(rng)
+            if gi == 0 and not deco and opts and rng.random() < 0.5:
+                deco = [kw_comment(rng)]
+            for d in deco:
+                feats.add("comment-own-line" if d.strip().startswith("#") else "blank-line" if not d.strip() else "longer-keyword")
+            if len(deco) > 1 and not deco[0].strip():
+                feats.add("comment-after-blank")
+            out += deco
+            if gi < len(opts):
+                k, v = opts[gi]
+                out.append(ind + _kv(rng, k, v))
+                if any(w in v.lower() for w in ("match", "host", "port", "user", "identityfile")):
+                    feats.add("keyword-in-value")
+        own = {k for k, _ in opts}
+        vals = [hostname, port, user, idonly, idfile]
+        if rng.random() < (0.45 if n_match == 0 else 0.15):
+            n_match += 1
+            if rng.random() < 0.4:
+                out.append("")
+            lines, keys = _match_block(rng, own, leak)
+            out += lines
+            feats.add("match-after-last" if ei == len(entries) - 1 else "match-between")
+            for k in keys:
+                if k not in own:
+                    feats.add("match-leak-region")
+                    v = MATCH_VALUES[k]
+                    vals[OPT_INDEX[k]] = int(v) if k == "port" else v
+                    own.add(k)
+        alt.append((pats, tuple(vals)))
+        if rng.random() < 0.4:
+            out.append("")
+    text = "\n".join(out)
+    if rng.random() < 0.85:
+        text += "\n"
+    return text, (alt if "match-leak-region" in feats else None), feats
+
+
+KW_CORPUS = [
+    ("# lab devices\n\nHost edge-rtr1\n    Port 2201\n    User edgeops\n\nHost core-sw1 core-sw1.example.net\n"
+     "    # keep the settings below in sync so that they match the bastion setup\n    Port 2222\n    User netops\n"
+     "    IdentityFile /keys/id_core\n\nHost *\n    User fallback\n",
+     [(["edge-rtr1"], (None, 2201, "edgeops", None, None)),
+      (["core-sw1", "core-sw1.example.net"], (None, 2222, "netops", None, "/keys/id_core")),
+      (["*"], (None, None, "fallback", None, None))], ["core-sw1", "core-sw1.example.net", "edge-rtr1", "other"]),
+    ("Host sw1\n  # no match for legacy kex\n  Port 2022\n\n  # user nobody, port 1\n  User matchbox\n  IdentityFile ~/.ssh/match_key\n"
+     "Host sw*\n  HostKeyAlias match\n  UserKnownHostsFile ~/.ssh/match hosts\n  User match\n  Port 830\nHost *\n  User def\n  Port 22\n",
+     [(["sw1"], (None, 2022, "matchbox", None, "~/.ssh/match_key")), (["sw*"], (None, 830, "match", None, None)),
+      (["*"], (None, 22, "def", None, None))], ["sw1", "sw2", "other"]),
+    ("Host match gw1 # the match host\n  User=match\n  HostName match.example.com\n  Port\t2222\n\nMatch host gw1\n  ForwardAgent yes\n"
+     "  Port 7777\nHost gw*\n  IdentityFile /keys/match/host\n  #Match all\n  User gwuser\nmatch all\n  Compression yes\n",
+     [(["match", "gw1"], ("match.example.com", 2222, "match", None, None)), (["gw*"], (None, None, "gwuser", None, "/keys/match/host"))],
+     ["match", "gw1", "gw2", "foo"]),
+    ("Match user bob\n  Port 9\n  User matchuser\nHost a\n  User x\n\n\n  # port = 1\n  Port 5\nMATCH\tfinal all\n  User matchuser\n",
+     [(["a"], (None, 5, "x", None, None))], ["a", "bob", "b"]),
+]
+
+
 # ---------------------------------------------------------------------------------------------
 # Coq terms
 # ---------------------------------------------------------------------------------------------
@@ -714,9 +945,22 @@ def _capped(rep, klass, cap=3):
     return seen[klass] > cap
 
 
-def check_pair(rep, text, entries, name, impl, stats, where):
+def _intended_any(entries):
+    return intended(entries) if entries and isinstance(entries[0][0], list) else entries
+
+
+def classify_alt(ents, name, impl, alt):
+    """classify; a result no listed region explains that is exactly the specification's answer on [alt] (the Match
+    blocks' directives read as the preceding Host entry's) lies in the Match-block known-finding region"""
+    sig, tame, want = classify(ents, name, impl)
+    if sig is None and alt and classify(_intended_any(alt), name, impl)[0] is not None:
+        sig = SIG_MATCH_LEAK        # (the answer on [alt], or one of the two older regions' answers on [alt])
+    return sig, tame, want
+
+
+def check_pair(rep, text, entries, name, impl, stats, where, alt=None):
     """oracle on one (config, name): returns True when the implementation is right"""
-    ents = intended(entries) if entries and isinstance(entries[0][0], list) else entries
+    ents = _intended_any(entries)
     if isinstance(impl, tuple) and impl and impl[0] == "EXC":
         stats["raised"] += 1
         if _capped(rep, "lookup-raised:" + impl[1]):
@@ -725,7 +969,7 @@ def check_pair(rep, text, entries, name, impl, stats, where):
                       {"suite": "sshconfig-roundtrip", "kind": "ssh_config", "text": text, "entries": ents, "name": name,
                        "want": spec_lookup(ents, name), "got": list(impl), "where": where})
         return False
-    sig, tame, want = classify(ents, name, impl)
+    sig, tame, want = classify_alt(ents, name, impl, alt)
     stats["tame_pairs" if tame else "region_pairs"] += 1
     if sig == "ok":
         return True
@@ -735,7 +979,8 @@ def check_pair(rep, text, entries, name, impl, stats, where):
     rep.violation("ssh config lookup of %r returned %r, the entry for that host is %r (%s)" % (
         name, impl, want, sig or "not explained by a known finding"),
         {"suite": "sshconfig-roundtrip", "kind": "ssh_config", "text": text, "entries": ents, "name": name,
-         "want": want, "got": list(impl) if impl else impl, "where": where, "signature": sig}, signature=sig)
+         "want": want, "got": list(impl) if impl else impl, "where": where, "signature": sig,
+         "alt_entries": _intended_any(alt) if alt else None}, signature=sig)
     return False
 
 
@@ -804,7 +1049,8 @@ def run(rep):
             if not holds:
                 sig = None
                 if r.get("kind") != "known_hosts":
-                    sig = classify(_entries_from_json(r["entries"]), r["name"], tuple(got))[0]
+                    sig = classify_alt(_entries_from_json(r["entries"]), r["name"], tuple(got),
+                                       _entries_from_json(r["alt_entries"]) if r.get("alt_entries") else None)[0]
                 if sig == f.get("signature") or r.get("kind") == "known_hosts":
                     rep.known(f["signature"])
                 else:
@@ -848,9 +1094,27 @@ def run(rep):
         e = gen_config(rng)
         work.append((e, gen_lookup_names(rng, e, per_cfg), False))
     work = [(e, n, t) for t, e, n in raw_corpus] + work
-    for ci, (entries, names, is_corpus) in enumerate(work):
+    work = [(e, n, t, None) for e, n, t in work]
+    # keyword-text family (own generator stream derived from the seed: the streams above / below stay what they were)
+    krng = random.Random(rep.seed * 7919 + 1601)
+    n_kw = 1200 if thorough else 130
+    stats["kw_family"] = {"configs": 0, "features": {}, "leak_region_configs": 0}
+    for t, e, n in KW_CORPUS:
+        work.append((e, n, t, {"alt": None, "feats": {"corpus"}}))
+    for i in range(n_kw):
+        e = gen_kw_config(krng)
+        t, alt, feats = render_kw(krng, e, leak=(i % 3 == 2))     # Match blocks setting options the preceding entry leaves unset (fixed finding: generated again)
+        n = gen_lookup_names(krng, e, per_cfg) + [krng.choice(["foo", "bob", "match", "matchuser", "gw1", "x"])]
+        work.append((e, list(dict.fromkeys(n)), t, {"alt": alt, "feats": feats}))
+    for ci, (entries, names, is_corpus, kw) in enumerate(work):
         text = is_corpus if isinstance(is_corpus, str) else render(rng, entries, plain=(ci % 5 == 0 and not is_corpus))
         ents = intended(entries)
+        alt = kw["alt"] if kw else None
+        if kw:
+            stats["kw_family"]["configs"] += 1
+            stats["kw_family"]["leak_region_configs"] += alt is not None
+            for ft in sorted(kw["feats"]):
+                stats["kw_family"]["features"][ft] = stats["kw_family"]["features"].get(ft, 0) + 1
         stats["configs"] += 1
         stats["entries_hist"][len(entries)] = stats["entries_hist"].get(len(entries), 0) + 1
         for pats, _ in entries:
@@ -872,13 +1136,20 @@ def run(rep):
         # (P) parse correspondence: the real _parse() output is the generator's structure
         parsed_ok = res["parsed"] is not None and [(k, o[1:]) for k, o in res["parsed"]] == [(k, v) for k, v in ents] \
             and all(k == o[0] for k, o in res["parsed"])
+        parse_leak = False
+        if not parsed_ok and alt and res["parsed"] is not None and rep.known_match(SIG_MATCH_LEAK) is not None \
+                and [(k, o[1:]) for k, o in res["parsed"]] == [(k, v) for k, v in intended(alt)]:
+            # known-finding region: the Match blocks' directives were read as the preceding entry's, nothing else differs
+            parsed_ok = parse_leak = True
+            stats["kw_family"]["parse_is_leak_structure"] = stats["kw_family"].get("parse_is_leak_structure", 0) + 1
+            rep.known(SIG_MATCH_LEAK)
         if not parsed_ok:
             stats["parse_mismatch"] += 1
             rep.notes.append("parse mismatch: text=%r parsed=%r intended=%r" % (text, res["parsed"], ents))
         any_bad = False
         for n in names:
             impl = res["lookups"][n]
-            good = check_pair(rep, text, entries, n, impl, stats, "grammar")
+            good = check_pair(rep, text, entries, n, impl, stats, "keyword-text" if kw else "grammar", alt=alt)
             any_bad = any_bad or not good
             want = spec_lookup(ents, n)
             kind = "default" if want[0] == "*" and not any(p == "*" for pats, _ in entries for p in pats) else \
@@ -895,9 +1166,9 @@ def run(rep):
                     continue
                 r2 = real_config(text, [n])
                 got = r2["lookups"].get(n, ("EXC", r2["construct_exc"]))
-                sig = classify(ents, n, got)[0] if got[0] != "EXC" else None
+                sig = classify_alt(ents, n, got, alt)[0] if got[0] != "EXC" else None
                 if sig is None:
-                    check_pair(rep, text, entries, n, got, stats, "parse-search")
+                    check_pair(rep, text, entries, n, got, stats, "parse-search", alt=alt)
                     found = True
                     break
             if not found:
@@ -905,11 +1176,13 @@ def run(rep):
         if ci < 3 or (ci == 40):
             rep.sample({"file": text, "lookups": {n: list(res["lookups"][n]) for n in names[:3]}})
         # (M) model correspondence on the real _parse() output
-        if res["parsed"] is not None and representable([o for _, o in res["parsed"]] + [o for _, o in res["merged"]]
-                                                       + [o for o in res["lookups"].values() if o and o[0] != "EXC"]):
+        #     (quick tier: every second file of the keyword-text family -- the model starts after the parse)
+        if res["parsed"] is not None and (thorough or not kw or ci % 2 == 0) \
+                and representable([o for _, o in res["parsed"]] + [o for _, o in res["merged"]]
+                                  + [o for o in res["lookups"].values() if o and o[0] != "EXC"]):
             lks = [(n, o) for n, o in res["lookups"].items() if o[0] != "EXC" and _ascii(n)]
             terms_m.append(term_m(res["parsed"], res["merged"], lks))
-            cases_m.append({"text": text, "entries": ents, "names": [n for n, _ in lks], "stream": "grammar"})
+            cases_m.append({"text": text, "entries": ents, "names": [n for n, _ in lks], "stream": "keyword-text" if kw else "grammar"})
         # (S) python oracle == Coq spec_lookup
         terms_s.append(term_s(ents, [(n, spec_lookup(ents, n)) for n in names]))
         cases_s.append({"entries": ents, "names": names})
@@ -944,8 +1217,8 @@ def run(rep):
     not_simple, _ = common.eval_cases(rep.workdir, "cases_c16c", HEADER_C, terms_c, "chk", shard=200)
     stats["pairs_checked_for_partial_theorem_class"] = len(terms_c)
     stats["pairs_in_partial_theorem_class"] = None if not_simple is None else len(terms_c) - len(not_simple)
-    bad_m, log_m = common.eval_cases(rep.workdir, "cases_c16m", HEADER_M, terms_m, "chk", shard=120)
-    bad_s, log_s = common.eval_cases(rep.workdir, "cases_c16s", HEADER_S, terms_s, "chk", shard=200)
+    bad_m, log_m = common.eval_cases(rep.workdir, "cases_c16m", HEADER_M, terms_m, "chk", shard=(120 if thorough else 90))
+    bad_s, log_s = common.eval_cases(rep.workdir, "cases_c16s", HEADER_S, terms_s, "chk", shard=(200 if thorough else 100))
 
     # 4. known_hosts
     kstats = {"files": 0, "lookups": 0, "plain": 0, "comma": 0, "hashed": 0, "malformed_files": 0, "raised": 0}
@@ -1018,6 +1291,13 @@ def run(rep):
                 "names; a pair is 'tame' when scrapli's algorithm with whole-name matching and the specification agree (the oracle is strict "
                 "there), otherwise it lies in a known-finding region and a mismatch must be exactly the reference algorithm's answer; "
                 "non-trivial = the name is matched by an entry other than the default Host *; distinct = (file text, name). "
+                "keyword-text family (own stream): the same structures with most options set, rendered with the words host / match / hostname / port / "
+                "user / identityfile (any case, followed by blank / tab / =) inside comments (own line, after blank lines, after the Host line's names), "
+                "inside values and host names (match, matchbox, ~/.ssh/match_key, Host match gw1), as prefixes of longer keywords (HostKeyAlias, "
+                "UserKnownHostsFile, Ports, MatchExec) and inside the values of directives scrapli does not read; comment / blank / white-space lines "
+                "before, between and after an entry's directives; Match blocks before the first, between and after Host entries whose parsed "
+                "directives are ones the preceding entry sets itself (1 file in 12: any directive = the Match-block known-finding region, where a "
+                "mismatch must be exactly the answer on the structure with those directives read as the preceding entry's); 4 fixed files. "
                 "known_hosts: plain / comma-listed / hashed ids, recorded and unrecorded names; malformed lines: model only. "
                 "cache histories: 1-2 generated files (most entries set port / user / identity file) at fresh paths, 3-9 operations (55% driver construction: "
                 "BaseDriver / Driver+paramiko / AsyncDriver+asyncssh, each of port / user / key explicit or omitted; 35% lookup through the factory; 10% lookup on a "
@@ -1119,7 +1399,10 @@ MANIFEST = {
             "Tie: Gen_SshConfig.v regenerated from the source on every run (HOST_ATTRS, Host() defaults, the pattern->regex expression taken out of the source by "
             "ast and classified per character by behaviour under CPython's re, re.search + re.I, the '<' of the best-match choice, known_hosts constants); "
             "the model is run by vm_compute on the REAL _parse() output of generated files and must reproduce the real merged dict and every lookup; "
-            "_parse itself (regex splitting) is confronted with the generator's structure, not modelled: parse by correspondence only. "
+            "_parse itself (regex splitting) is confronted with the generator's structure, not modelled: parse by correspondence only -- on the grammar "
+            "stream and on the keyword-text family (keywords host / match / hostname / port / user / identityfile inside comments, values, host names, "
+            "longer keywords and unread directives; comment and blank lines between an entry's directives; Match blocks before / between / after Host "
+            "entries, specification: a Match block ends the preceding Host entry and its directives belong to no Host entry). "
             "Correspondence `sshconfig-cache-history` (harness/c16_cache.py): histories of (ssh_config_factory(path).lookup | BaseDriver / Driver+paramiko / "
             "AsyncDriver+asyncssh construction with explicit or omitted port, auth_username, auth_private_key | SSHConfig(path).lookup on a new parse)* "
             "on one path or on two paths with the same base name, closed by a dump of every cached entry; every observation (looked-up entry; the "
@@ -1137,8 +1420,12 @@ MANIFEST = {
             "(no hypotheses on them; the no-collision condition is a premise per entry). Observed only (not proved): _parse on generated files of the supported "
             "grammar (ASCII; names incl. 'host' and regex metacharacters, not backslash/quotes/#); the agreement lookup = specification outside the class of the "
             "partial theorem (oracle on 'tame' pairs; in the two known-finding regions a mismatch must equal the reference algorithm's answer). "
+            "The keyword-text family is oracle-only at the text level (the model does not parse text; it is run on the real _parse() output of every "
+            "second file of the family in the quick tier, of every file in the thorough tier). Match blocks set any option, also ones the preceding Host entry "
+            "leaves unset (1 file in 3 of the family); Match criteria are never evaluated by scrapli nor by the oracle. "
             "Known findings: unanchored match (pinned by a unit test), inheritance by pattern text, known_hosts lines with a 4th field. "
-            "Fixed in the worktree: re.escape of patterns, line-anchored Host block splitting, HostName inheritance, key types with @/.",
+            "Fixed in the worktree: re.escape of patterns, line-anchored Host block splitting, HostName inheritance, key types with @/., directives of a "
+            "Match block read as the preceding Host entry's (54988e3; replayed on every run).",
     "technique": "Coq proofs by induction over the merge loops / dict invariants and over histories of the cache state machine (invariant cached = "
                  "build(file)), refutation of the full statement by vm_compute witnesses, "
                  "vm_compute correspondence of the model against the real SSHConfig / SSHKnownHosts / ssh_config_factory + driver construction on "
